@@ -7,7 +7,10 @@ the target: an outcome other than tree / ParsingException / LexError is written 
 type @ innermost library frame) and the process keeps going (findings are excluded by signature so that the campaign
 continues behind them).
 """
-import json, os, sys
+import signal, json, os, sys
+
+
+WATCHDOG_S = 10
 
 
 def main(argv):
@@ -31,6 +34,13 @@ def main(argv):
     stats = {'execs': 0, 'accepted': 0, 'rejected': 0, 'lexerror': 0, 'sites': {}}
     seen = set()
 
+    class _Timeout(BaseException):
+        pass
+
+    def _alarm(*a):
+        raise _Timeout()
+    signal.signal(signal.SIGALRM, _alarm)
+
     def decode(data):
         """first byte: dialect; then a mix of dictionary words (byte >= 0x80 selects a word) and raw characters"""
         if not data:
@@ -53,6 +63,7 @@ def main(argv):
         d, sql = decode(data)
         if len(sql) > 400:
             return
+        signal.setitimer(signal.ITIMER_REAL, WATCHDOG_S)
         try:
             r = parse_sql(sql, d)
             if isinstance(r, ASTNode):
@@ -67,8 +78,17 @@ def main(argv):
             stats['lexerror'] += 1
         except RecursionError:
             pass
+        except _Timeout:
+            # the campaign goes on: a parse that does not come back must not stall it (judge() decides again later)
+            rec('no-termination', d, sql, f'no result within {WATCHDOG_S}s')
+            stats['timeouts'] = stats.get('timeouts', 0) + 1
+            if stats['timeouts'] >= 3:      # libFuzzer keeps mutating the slow input: the finding is recorded, stop here
+                dump()
+                os._exit(0)
         except Exception as e:
             rec(site_of(e), d, sql, f'{type(e).__name__}: {e}')
+        finally:
+            signal.setitimer(signal.ITIMER_REAL, 0)
 
     def rec(site, d, sql, detail):
         stats['sites'][site] = stats['sites'].get(site, 0) + 1
